@@ -25,6 +25,12 @@ func runC12(p *eng.Prog, r *eng.Report, tier string) {
 	c := &cx{p, r, tier}
 	// C12.6 the id the bind answer repeats is the request's own id attribute
 	ownAttrLookups(c, "C12.6", func(f *eng.Fn) bool { return strings.HasPrefix(f.Short, "xmpp.bind") })
+	// C12.3 version numbers (and every other number read from a header) are
+	// refused, not truncated, when they do not fit
+	nTr := parsedIntTruncation(c, "C12.3", func(f *eng.Fn) bool {
+		return strings.HasPrefix(f.Short, "stream.") || strings.HasPrefix(f.Short, "internal/stream.")
+	})
+	c.r.Floor("C12.3", "narrowing conversions of parsed numbers in the stream packages", nTr, 2)
 	c12Send(c)
 	c12Expect(c)
 	c12FromStart(c)
@@ -482,6 +488,11 @@ func c12Bind(c *cx) {
 		}
 		nsucc++
 		c.dom("C12.5", f, rs, "initiator success return [result reply]", []string{"eq(*.Type,stanza.ResultIQ)"})
+		// ... and has told the session the address the server assigned: on
+		// every path (the server may bind the requested resource under another
+		// bare address)
+		isUpd := func(q eng.Point, nd ast.Node) bool { return f.ContainsCall(nd, "xmpp.Session.UpdateAddr") != nil }
+		c.r.Check("C12.5", f, "initiator success return [address reported]", "O: every path to the initiator's success return passes Session.UpdateAddr", rs.Pos(), g.MustPassBefore(g.Entry(), pt, isUpd, nil), "a success return is reachable without UpdateAddr: LocalAddr keeps the address the session started with")
 	}
 	c.r.Floor("C12.5", "initiator success returns of bind", nsucc, 1)
 	// receiver: a stanza error from the application's callback is answered as
